@@ -223,6 +223,9 @@ class Dropper:
         n = v.name or ''
         if n == '<moved>':
             return
+        if n == 'leaf' and v.extra and v.extra.get('kind') in ('handle', 'stream') and v.extra.get('pend') and not v.extra.get('done'):
+            # a user callback future that was polled but never completed is dropped: the callback is abandoned
+            st.event('user_abandoned', v.extra['kind'], v.extra.get('n'), v.extra.get('actor'), why[:40])
         if n == 'Arc':
             oid = v.extra['oid']
             inner = st.objs[oid]
@@ -705,6 +708,7 @@ DROP_MODELS['LockFuture'] = lambda d, st, v, why: None
 # =========================================================================== abortable
 def m_abortable(e, st, fr, t, args):
     oid = mobj(st, 'abort', aborted=False)
+    st.event('abortable_new', oid)
     fut = VAgg(name='Abortable', fields={('f', 0): args[0]}, extra={'oid': oid})
     return VAgg(name='tuple', fields={('f', 0): fut, ('f', 1): handle('AbortHandle', oid)})
 
@@ -782,6 +786,23 @@ def call_fnlike(e, st, t, f, argvals, cont_tag, cont_data):
             st.meta['conts'] = st.meta.get('conts', []) + [(cont_tag, cont_data)]
             e.push_call(st, fn, argvals, ret_dest=None, ret_bb=-1, unwind_bb=t.unwind, tag='cont')
             return True
+        # a fn item of a modelled library function (e.g. `futures_timer::Delay::new`): ask its model for the value
+        import copy
+        from engine import _strip_modules, _norm_rx
+        t2 = copy.copy(t)
+        t2.func = f.text.strip()
+        norm = _strip_modules(t2.func)
+        for rx, h in e.models:
+            if rx.search(t2.func) or (norm != t2.func and (rx.search(norm) or _norm_rx(rx).search(norm))):
+                r = h(e, st, st.frames[-1], t2, list(argvals))
+                if r is NotImplemented:
+                    continue
+                if r is None or isinstance(r, list):
+                    raise Unsupported(f"fn item {t2.func} used as a value: its model takes over control flow")
+                out = e.conts[cont_tag](e, st, cont_data, r)
+                if out is not None:
+                    raise Unsupported(f"continuation {cont_tag} forked")
+                return 'done'
     body, clo = closure_body_of(e, st, f)
     if body is not None:
         co = st.alloc(clo)
